@@ -403,58 +403,10 @@ type keyForm struct {
 	contentType string
 	exp         string
 	random      bool // contents redrawn in the seeded repetitions
+	sprinkle    bool // seeded repetitions insert 1-3 extra blanks / tabs / line breaks at drawn positions
 }
 
 var forms []keyForm
-
-func initForms() {
-	sym := func(n int) []byte { // not valid base64 in either alphabet
-		b := make([]byte, n)
-		for i := range b {
-			b[i] = byte(0xff - i*3)
-		}
-		b[0] = '!'
-		return b
-	}
-	k32 := make([]byte, 32)
-	for i := range k32 {
-		k32[i] = byte(0xfb - i*9) // encodes with '+' '/' resp. '-' '_'
-	}
-	brace := sym(32)
-	brace[0] = '{'
-	octJWK := `{"kty":"oct","k":"` + base64.RawURLEncoding.EncodeToString(k32) + `"}`
-	forms = []keyForm{
-		{"rsa-pkcs1-pem/heuristic", []byte(privateKeyRSAPKCS1), "", "ok", false},
-		{"rsa-pkcs8-pem/x-pem-file", []byte(privateKeyRSAPKCS8), "application/x-pem-file", "ok", false},
-		{"rsa-pkix-pem/pkcs8", []byte(publicKeyRSAPKIX), "application/pkcs8", "ok", false},
-		{"rsa-jwk/json", []byte(privateKeyRSAJSON), "application/json", "ok", false},
-		{"rsa-pub-jwk/heuristic", []byte(publicKeyRSAJSON), "", "ok", false},
-		{"ed25519-pkcs8-pem/heuristic", []byte(privateKeyEd25519PKCS8), "", "ok", false},
-		{"ed25519-pkix-pem/x-pem-file", []byte(publicKeyEd25519PKIX), "application/x-pem-file", "ok", false},
-		{"ed25519-jwk/json", []byte(privateKeyEd25519JSON), "application/json", "ok", false},
-		{"ed25519-pub-jwk/heuristic", []byte(publicKeyEd25519JSON), "", "ok", false},
-		{"p256-pkcs8-pem/heuristic", []byte(privateKeyP256PKCS8), "", "ok", false},
-		{"p256-ec-pem/x-pem-file", []byte(privateKeyP256EC), "application/x-pem-file", "ok", false},
-		{"p256-jwk/heuristic", []byte(privateKeyP256JSON), "", "ok", false},
-		{"oct-jwk/json", []byte(octJWK), "application/json", "ok", false},
-		{"sym-raw-16", sym(16), "", "ok", false},
-		{"sym-raw-24", sym(24), "", "ok", false},
-		{"sym-raw-32", sym(32), "", "ok", false},
-		{"sym-raw-32-leading-brace", brace, "", "ok", false},
-		{"sym-raw-33", sym(33), "", "ok", false},
-		{"sym-b64std", []byte(base64.RawStdEncoding.EncodeToString(k32)), "", "ok", false},
-		{"sym-b64std-padded-newline", []byte(base64.StdEncoding.EncodeToString(k32) + "\n"), "", "ok", false},
-		{"sym-b64url", []byte(base64.RawURLEncoding.EncodeToString(k32)), "", "ok", false},
-		{"sym-b64url-padded", []byte(base64.URLEncoding.EncodeToString(k32)), "text/plain", "ok", false},
-		{"bad-json/json", []byte(`{"kty":"RSA","n":`), "application/json", "err", false},
-		{"bad-json/heuristic", []byte(`{"kty":"oct"`), "", "err", false},
-		{"bad-pem/heuristic", []byte("-----BEGIN NOTHING-----\nAAAA\n-----END NOTHING-----\n"), "", "err", false},
-		{"bad-pem/x-pem-file", []byte("not a pem file at all"), "application/x-pem-file", "err", false},
-		{"empty", []byte{}, "", "err", false},
-		{"random-bytes", sym(48), "", "any", true},
-		{"random-bytes/json", sym(17), "application/json", "any", true},
-	}
-}
 
 func planParse() []group {
 	var gs []group
@@ -466,16 +418,41 @@ func planParse() []group {
 
 func runParse(g *gctx, gr group) {
 	f := forms[gr.a]
-	rawB := f.raw
+	rawB, exp := f.raw, f.exp
 	if f.random && g.rep > 0 {
 		rawB = g.data(1+g.rng.Intn(80), 1)
 	}
+	if f.sprinkle && g.rep > 0 && len(rawB) > 0 {
+		rawB = clone(rawB)
+		for k := 1 + g.rng.Intn(3); k > 0; k-- {
+			at := g.rng.Intn(len(rawB) + 1)
+			ws := []byte{" \t\n\r"[g.rng.Intn(4)]}
+			rawB = append(rawB[:at], append(ws, rawB[at:]...)...)
+		}
+		exp = "any"
+	}
 	raw := g.argOrNil("raw", rawB, 0)
+	fn := "crypto.ParseKey[" + parseBranch(rawB, f.contentType) + "]"
 	var key jwk.Key
-	c := g.newCall("crypto.ParseKey", f.name, "parse", f.exp, raw)
+	c := g.newCall(fn, f.name, "parse", exp, raw)
 	c.extra = "contentType=" + f.contentType
 	c.run(func() { key, c.err = kitcrypto.ParseKey(raw.s(), f.contentType) })
-	c.judge()
+	first := c.judge()
+	rec.Count("parse.branch."+parseBranch(rawB, f.contentType), 1)
+	if first == 0 {
+		// the identical call once more: same buffer, same verdict expected
+		c2 := g.newCall(fn, f.name, "parse-again", "any", raw)
+		c2.extra = c.extra
+		var key2 jwk.Key
+		c2.run(func() { key2, c2.err = kitcrypto.ParseKey(raw.s(), f.contentType) })
+		c2.judge()
+		if (key == nil) == (key2 == nil) {
+			rec.Count("parse.second_call_same_verdict", 1)
+		} else {
+			rec.Count("parse.second_call_differs_not_judged", 1)
+			rec.Observe("crypto.ParseKey form " + f.name + ": a second identical call gave a different verdict although the buffer was unchanged (not judged)")
+		}
+	}
 	if key == nil {
 		return
 	}
